@@ -26,6 +26,17 @@ type scase struct {
 	Srv   string `json:"srv"`
 	Fin   string `json:"fin"`
 	Cli   string `json:"cli"`
+	// options of the real run only (the model has no counterpart: see the trusted base):
+	// Amp: the handler derives Amp*1000 child contexts from the call's context right before it returns
+	// (a handler with per-item worker contexts) — cancelling the stream context then takes long enough for
+	// the internal order of Close to become observable by a client parked in RecvMsg.
+	// Reuse: both sides reuse one message object for all their sends and overwrite it right after SendMsg returns.
+	Amp   int  `json:"amp,omitempty"`
+	Reuse bool `json:"reuse,omitempty"`
+}
+
+func (c scase) key() string {
+	return fmt.Sprintf("%s amp=%d reuse=%v", c.args(), c.Amp, c.Reuse)
 }
 
 func (c scase) args() string {
